@@ -16,6 +16,8 @@ pub enum Content {
   Zero,
   Ones,
   Ascii,
+  /// printable text with white space at one or both edges
+  EdgedText,
 }
 
 pub fn content(rng: &mut ChaCha20Rng, len: usize, c: Content) -> Vec<u8> {
@@ -24,6 +26,20 @@ pub fn content(rng: &mut ChaCha20Rng, len: usize, c: Content) -> Vec<u8> {
     Content::Zero => vec![0u8; len],
     Content::Ones => vec![0xffu8; len],
     Content::Ascii => (0..len).map(|_| rng.gen_range(0x20u8..0x7f)).collect(),
+    Content::EdgedText => {
+      let mut v: Vec<u8> = (0..len).map(|_| rng.gen_range(0x21u8..0x7f)).collect();
+      let ws = [b' ', b'\t', b'\n', b'\r'];
+      if len > 0 {
+        let k = rng.gen_range(0..3);
+        if k != 1 {
+          v[0] = ws[rng.gen_range(0..4)];
+        }
+        if k != 0 {
+          v[len - 1] = ws[rng.gen_range(0..4)];
+        }
+      }
+      v
+    }
   }
 }
 
@@ -32,6 +48,7 @@ pub fn content_class(rng: &mut ChaCha20Rng) -> Content {
     0 => Content::Zero,
     1 => Content::Ones,
     2 | 3 => Content::Ascii,
+    4 => Content::EdgedText,
     _ => Content::Uniform,
   }
 }
@@ -194,8 +211,13 @@ impl Scenario {
     let arb: [u8; 32] = rng.gen();
     let mut out = Vec::with_capacity(auxes.len());
     for a in auxes {
+      // text values enter through the string conversions now and then
+      let via_str = rng.gen_bool(0.5);
       let mg = MessageGenerator::new(
-        SingleMeasurement::new(&self.measurement),
+        match std::str::from_utf8(&self.measurement) {
+          Ok(s) if via_str => SingleMeasurement::from(s),
+          _ => SingleMeasurement::new(&self.measurement),
+        },
         self.t,
         &self.epoch,
       );
@@ -223,7 +245,11 @@ impl Scenario {
       let msg = Message::generate(
         &mg,
         &rnd,
-        a.as_ref().map(|b| AssociatedData::new(b)),
+        a.as_ref().map(|b| match std::str::from_utf8(b) {
+          Ok(s) if via_str => AssociatedData::from(s),
+          _ if b.len() % 2 == 1 => AssociatedData::from(&b[..]),
+          _ => AssociatedData::new(b),
+        }),
       )
       .map_err(|e| format!("Message::generate failed: {}", e))?;
       let bytes = msg.to_bytes();
